@@ -311,7 +311,30 @@ Fixpoint run (s : state) (ls : list label) : option state :=
   | l :: r => match step s l with Some s' => run s' r | None => None end
   end.
 
+(* a deterministic scheduler (used by the Examples of Properties/C02_protocol.v and by the runner's
+   self-test): repeatedly fires the label chosen by `pick` among the enabled ones *)
+Fixpoint sched (pick : list label -> option label) (fuel : nat) (s : state) (acc : list label) : state * list label :=
+  match fuel with
+  | O => (s, rev acc)
+  | S k =>
+      match pick (enabled s) with
+      | None => (s, rev acc)
+      | Some l => match step s l with Some s' => sched pick k s' (l :: acc) | None => (s, rev acc) end
+      end
+  end.
+
 End Graph.
+
+(* first enabled protocol step, never answering "exists" (so that the whole graph is copied) *)
+Definition copy_label (l : label) : bool :=
+  match l with LExists _ ExTrue => false | _ => progress_label l end.
+Definition pick_progress (ls : list label) : option label := find copy_label ls.
+(* prefers a failing push, then a cancellation-free protocol step *)
+Definition pick_push_fault (ls : list label) : option label :=
+  match find (fun l => match l with LPush _ false => true | _ => false end) ls with
+  | Some l => Some l
+  | None => find copy_label ls
+  end.
 
 (* K permits, the top-level call syncutil.Go(ctx, limiter, fn, roots...):
    ext = false: copyGraph (roots = [root], children run copyGraph.fn);
